@@ -333,7 +333,8 @@ def circumcenter(v1 : Vec, v2 : Vec, v3: Vec) -> Vec:
     Returns:
         Vec: coordinates of the circumcenter
     """
-    X,Y,_ = face_basis(v1,v2,v3)
+    X,Y,Z = face_basis(v1,v2,v3)
+    offset = dot(Z,v1) # signed distance from the origin to the plane of the triangle
     v1,v2,v3 = (Vec(dot(X,v), dot(Y,v)) for v in (v1,v2,v3)) # projet into basis of the triangle
     p1 = (v1+v2)/2
     p2 = (v1+v3)/2
@@ -342,7 +343,7 @@ def circumcenter(v1 : Vec, v2 : Vec, v3: Vec) -> Vec:
     d1 = Vec(d1[1], -d1[0])
     d2 = Vec(d2[1], -d2[0])
     S = intersect_2lines2D(p1, d1, p2, d2)
-    return X*S.x + Y*S.y
+    return X*S.x + Y*S.y + Z*offset
 
 def aspect_ratio(A : Vec, B : Vec, C : Vec) -> float:
     """
